@@ -11,6 +11,7 @@ import Mathy.Model.Tree
 import Mathy.Model.Layout
 import Mathy.Model.PyEval
 import Mathy.Model.TermsLike
+import Mathy.Model.Problems
 namespace Mathy
 
 def Bop.name : Bop → String
@@ -233,5 +234,31 @@ def pyEnvOfWire (toks : List String) : PyEnv := fun c =>
         | _ => none
       else none
     | _ => none
+
+/-! problem shapes: item = `T:<coef>:<var>:<pow>` | `N:<num>`; num = `-` (absent) | `p<text>` | `m<text>`;
+text / pow as comma separated code points -/
+
+def PNum.ofWire (s : String) : Option (Option PNum) :=
+  if s == "-" then some none
+  else match s.toList with
+    | 'p' :: rest => (textOfWire (String.ofList rest)).map fun t => some ⟨false, t⟩
+    | 'm' :: rest => (textOfWire (String.ofList rest)).map fun t => some ⟨true, t⟩
+    | _ => none
+
+def PItem.ofWire (s : String) : Option PItem :=
+  match s.splitOn ":" with
+  | ["T", c, v, p] =>
+    match PNum.ofWire c, v.toList with
+    | some coef, [x] =>
+      if p == "-" then some (.term coef x none)
+      else (textOfWire p).map fun t => .term coef x (some t)
+    | _, _ => none
+  | ["N", n] => match PNum.ofWire n with
+    | some (some n) => some (.num n)
+    | _ => none
+  | _ => none
+
+def POpr.ofWire : String → Option POpr
+  | "+" => some .plus | "-" => some .minus | "*" => some .times | _ => none
 
 end Mathy
